@@ -514,7 +514,7 @@ func (w *world) exec(i int, st Step) {
 				params = map[string]any{"p": st.K, "x": make(chan int)} // cannot be marshalled
 			}
 			if st.Push == "notify" {
-				err := w.srv.Notify(ctx, "pnote", params)
+				err := w.srv.Notify(ctx, MethodName("pnote", st.K), params)
 				e := Event{Kind: "pushret", K: st.K, Method: "notify", Err: errStr(err)}
 				if err == jrpc2.ErrPushUnsupported {
 					e.Flag = "unsupported"
@@ -526,7 +526,7 @@ func (w *world) exec(i int, st Step) {
 				w.log(e)
 				return
 			}
-			rsp, err := w.srv.Callback(ctx, "pcall", params)
+			rsp, err := w.srv.Callback(ctx, MethodName("pcall", st.K), params)
 			e := Event{Kind: "pushret", K: st.K, Method: "callback", Err: errStr(err)}
 			if err == jrpc2.ErrPushUnsupported {
 				e.Flag = "unsupported"
